@@ -63,3 +63,35 @@ Proof. vm_compute. split; reflexivity. Qed.
 Example C18_ex_second_reconcile_is_quiet :
   fst (fst mig_second) = OOk /\ filter pi_write (snd (fst mig_second)) = [].
 Proof. vm_compute. split; reflexivity. Qed.
+
+(* (5) OPEN FINDING C18-pre-gc-collision-count, stated on the model: "create no new revision" does not hold for a reconcile
+   that runs between helper.Upgrade and the garbage collector's orphaning of the built-in set's revisions (they still carry
+   the built-in set's controller reference, so they are not listed) when the copied collision count is 1 or more.  The
+   real controller does the same (props/c18.py, pre-GC family; after the orphaning the duplicate becomes the update
+   revision and pods are deleted). *)
+(* refuted in the window before the garbage collector has orphaned the built-in set's dependents *)
+Definition stale_owner : owner := {| o_kind := "StatefulSet"; o_name := "web"; o_uid := "u0" |}.
+Definition pg_rev : rev :=
+  {| r_name := "web-h1"; r_revision := 1; r_tmpl := 1; r_owner := Some stale_owner; r_match := false; r_marker := Some "web"%string;
+     r_hash := Some "h1"%string; r_created := 0; r_labels_nil := false |}.
+Definition pg_pod (i : Z) : pod :=
+  let p := ex_pod i "web-h1" "Running" true in
+  {| p_name := p_name p; p_match := true; p_owner := Some stale_owner; p_phase := p_phase p; p_ready := true; p_term := false;
+     p_rev := p_rev p; p_namelabel := p_namelabel p; p_vols := p_vols p; p_tmpl := 1 |}.
+Definition pg_status (coll : Z) : status :=
+  let st := ex_status 3 "web-h1" "web-h1" in
+  {| st_replicas := st_replicas st; st_ready := st_ready st; st_current := st_current st; st_updated := st_updated st;
+     st_currev := st_currev st; st_updrev := st_updrev st; st_obsgen := st_obsgen st; st_coll := Some coll |}.
+Definition pg_world (coll : Z) : world :=
+  ex_world (ex_set 3 None "OrderedReady" 1 0 (pg_status coll)) [pg_pod 0; pg_pod 1; pg_pod 2] [pg_rev].
+Definition pg_writes (coll : Z) : list string :=
+  map (fun e => shape_of (fst e)) (filter pi_rev_write (snd (fst (reconcile ex_hashes (pg_world coll) (pg_world coll) [])))).
+Example C18_pre_gc_collision_refuted :
+  (* collision count 0: the name is taken, the create is answered AlreadyExists, the revision is read and re-used *)
+  pg_writes 0 = ["create controllerrevisions web-h1"]%string
+  /\ In (CCreateRev "web-h1" 1 1, Some EExists) (snd (fst (reconcile ex_hashes (pg_world 0) (pg_world 0) [])))
+  (* collision count 1: another name, the create succeeds, a second revision records the same template *)
+  /\ pg_writes 1 = ["create controllerrevisions web-h1b"]%string
+  /\ In (CCreateRev "web-h1b" 1 1, None) (snd (fst (reconcile ex_hashes (pg_world 1) (pg_world 1) [])))
+  /\ map r_name (w_revs (snd (reconcile ex_hashes (pg_world 1) (pg_world 1) []))) = ["web-h1"; "web-h1b"]%string.
+Proof. vm_compute. repeat split; auto 10. Qed.
